@@ -650,7 +650,7 @@ fn graph_case() -> impl Strategy<Value = GraphCase> {
 }
 
 fn c11_graphs(ctx: &ShardCtx) -> ShardResult {
-    let cases = ctx.tier.pick(1500, 4000);
+    let cases = ctx.tier.pick(1500, 20_000);
     run_proptest(ctx, graph_case(), cases, 11, |c, stats| {
         let f = run_graph(c)?;
         stats.label(&format!("pool.{}", POOLS[c.pool as usize % POOLS.len()]));
